@@ -77,6 +77,7 @@ func streamC05(c *Ctx) {
 	c.Rule = "(i) close/reopen after every prefix of random write histories on bbolt and badger-on-disk (in every other history some transactions are abandoned before or at their commit by an injected store fault and the history goes on with the same handle): logical state and raw key dump equal to the model's, invariant oracle on the reopened store; " +
 		"(ii) a child process executes a scripted history of batched inserts, bulk updates/deletes and index create/drop, acknowledging each returned operation on a pipe; the parent kills it (SIGKILL) at a uniformly random instant, reopens the directory and requires the raw dump to be the model's state after j operations for j in {acknowledged, acknowledged+1} and the invariant oracle to hold. " +
 		"(iv) every store call of DropCollection / DropIndex / CreateIndex / CreateCollectionByQuery / Delete / Insert / Save / UpdateById / ReplaceById / DeleteById / Update / CreateCollection on a collection with two indexes abandoned in turn (the commit included), then reopen: the state before the operation, then the operation succeeds. " +
+		"(vi) a child process that has inserted 6000 padded documents and deleted three fifths of them is killed at a random instant of its Close; reopen: the acknowledged state; one more acknowledged delete, clean close, reopen: the model's state again. " +
 		"(iii) a child process importing a file of 4300 documents (more than 4 MiB) is killed at a uniformly random instant of the import's measured duration: the reopened store holds nothing or everything of the collection. " +
 		"non-trivial = distinct (history, kill instant) where at least one operation had been acknowledged and the history was not finished"
 	dr := StartDriver(c.DriverBin)
@@ -221,6 +222,12 @@ func streamC05(c *Ctx) {
 			}
 		}
 		im.Destroy()
+	}
+	// (vi) kill during Close after the file has become mostly free pages, then a second cycle with a clean close
+	for _, be := range []string{"bbolt", "badger-disk"} {
+		if !closeKills(c, be, c.N(3, 25), NewGen(c.Rng, dm)) {
+			return
+		}
 	}
 	// (iii) kill during one large import (more than 4 MiB): nothing or everything after reopening
 	for _, be := range []string{"bbolt", "badger-disk"} {
